@@ -214,6 +214,7 @@ def run_loop(I, s, f, sp, kind, iterable):
         E.add(z3.And(k >= 0, k <= T(trips)))
         it_var[0] = SymInt(k)
     if sp.ghost_step is not None:
+        bind_head()
         sp.ghost_step("havoc", Env(f, I, extra))
 
     # 3. assume the invariant
@@ -241,6 +242,7 @@ def run_loop(I, s, f, sp, kind, iterable):
         if kind == "for":
             it_var[0] = it_var[0] + 1
         if sp.ghost_step is not None:
+            bind_head()
             sp.ghost_step("step", Env(f, I, extra))
         E.ensure(label + ".inv.step", inv_now(), kind="inv.step", lineno=s.lineno)
         if old_variant is not None:
